@@ -54,6 +54,6 @@ func init() {
 	Props["C15"] = Prop{Level: "model_checking", Run: func(r *mc.Run, tier string) {
 		r.Rules = append(r.Rules, "BFS over Init/Shutdown by 3 accounts (one under-funded) x collateral-price changes x NextBlock; a state is distinct by the full storage+bank stores, header and model; non-trivial = first reached by an accepted state-changing event")
 		r.Assumptions = append(r.Assumptions, "price alphabet {p, 2p, p/2}; 3 registrants", "seam A omits fees/signatures (zero-fee signed replay at seam B validates)")
-		r.AddExplore(C15{}, opts(tier, 6, 9, 40, 900, 150, 2000))
+		r.AddExplore(C15{}, opts(tier, 10, 14, 40, 900, 150, 2000))
 	}}
 }
